@@ -28,6 +28,9 @@ ren propFindFile describeFile
 ren propFindCalendar describeCalendar
 ren handleMultiget serveMultiget
 ren handleQuery serveQuery
+ren overlaps pathsOverlap
+ren errFromOSCreate mapCreateError
+ren stripPath withoutPaths
 GOFLAGS=-mod=mod GOPROXY=off go build ./... || { echo "REFAC: does not compile"; cd /; rm -rf "$D"; exit 4; }
 GOFLAGS=-mod=mod GOPROXY=off go test -vet=off -count=1 ./... >/dev/null 2>&1 && echo "REFAC: suite passes" || echo "REFAC: suite FAILS"
 cd /verif
